@@ -8,4 +8,5 @@ MODULES = [
     'contracts.c_errors',
     'contracts.c_expr',
     'contracts.c_codec',
+    'contracts.c_codegen',
 ]
